@@ -168,7 +168,10 @@ class Inventory:
                 cond = fa.op_term(t["cond"], (b, nst))
                 ops = [fa.op_term(o, (b, nst)) for o in t["ops"]]
                 kind = t["kind"]
-                desc = "%s(%s)" % (kind, ", ".join(show(o, names) for o in ops))
+                ostr = [show(o, names) for o in ops]
+                if kind in ("Overflow:Add", "Overflow:Mul"):
+                    ostr = sorted(ostr)      # commutative: key independent of operand order
+                desc = "%s(%s)" % (kind, ", ".join(ostr))
                 civ = iv.interval(cond, b)
                 want = 1 if t["expected"] else 0
                 if all(is_const(o) for o in ops) and civ == (want, want):
